@@ -23,11 +23,18 @@ def q(p):
 
 
 class Draw:
-    def __init__(self, r):
-        self.r = float(r)
+    """Stands in for the random module inside iterutils: random() replays a script of draws in [0, 1), cyclically."""
+
+    def __init__(self, *rs):
+        self.rs, self.i = [float(r) for r in rs], 0
 
     def random(self):
-        return self.r
+        r = self.rs[self.i % len(self.rs)]
+        self.i += 1
+        return r
+
+    def uniform(self, a, b):
+        return a + (b - a) * self.random()
 
 
 def run_row(row):
@@ -73,13 +80,24 @@ def run_row(row):
                 except Exception as ex:
                     bad.append(("backoff_iter(repeat)", "raised:" + core.exc_name(ex)))
         elif kind == "jitter":
-            it.random = Draw(q(row["draw"]))
-            try:
-                got = conv(it.backoff(start, stop, count=row["count"], factor=factor, jitter=float(q(row["jit"]))))
-            finally:
-                it.random = realrandom
-            if got != exp:
-                bad.append(("backoff(jitter)", [str(x) for x in got]))
+            base, other = [q(x) for x in row["base"]], [q(x) for x in row["other"]]
+            r0 = q(row["draw"])
+            hi, lo = Fraction(1023, 1024), Fraction(0)
+            scripts = [[r0], [hi, lo], [lo, hi], [hi, hi, lo, lo], [r0, hi, lo, Fraction(1, 2)], [hi, Fraction(3, 4), lo, lo, hi, lo, lo]]
+            for script in scripts:
+                for label, fn in (("backoff(jitter)", it.backoff), ("backoff_iter(jitter)", lambda *a, **k: itertools.islice(it.backoff_iter(*a, **k), row["count"]))):
+                    it.random = Draw(*script)
+                    try:
+                        got = conv(fn(start, stop, count=row["count"], factor=factor, jitter=float(q(row["jit"]))))
+                    except Exception as ex:
+                        bad.append((label, "raised:" + core.exc_name(ex)))
+                        continue
+                    finally:
+                        it.random = realrandom
+                    if len(got) != len(base) or any(not (min(b, o) <= g <= max(b, o)) for g, b, o in zip(got, base, other)):
+                        bad.append((label, {"draws": [str(x) for x in script], "got": [str(x) for x in got], "unjittered": [str(x) for x in base],
+                                            "other_end": [str(x) for x in other]}))
+                        break
         else:
             kw = {"jitter": float(q(row["jit"]))} if kind == "invalid_jitter" else {}
             for label, fn in (("backoff", it.backoff), ("backoff_iter", it.backoff_iter)):
